@@ -416,6 +416,7 @@ CAPS = {
     'j_compound_key': ({'A': 2, 'B': 2}, {'A': 2, 'B': 3}),
     'k_1_1': ({'A': 2, 'B': 2}, {'A': 2, 'B': 3}),
     'l_shared_referential': ({'A': 1, 'B': 2, 'C': 1}, {'A': 2, 'B': 2, 'C': 2}),
+    'm_shared_referential_int': ({'A': 1, 'B': 2, 'C': 1}, {'A': 2, 'B': 2, 'C': 2}),
 }
 
 
